@@ -271,7 +271,7 @@ def extra(ctx, cov):
     return []
 
 THEOREMS = ["Mpir.DivWord." + t for t in [
-    "invert_limb_spec", "udiv_qrnnd_preinv_spec", "invert_pi1_spec", "udiv_qr_3by2_spec", "modlimb_invert_spec", "divrem_euclidean_qr_1_val",
+    "invert_limb_spec", "udiv_qrnnd_preinv_spec", "udiv_qrnnd_preinv1_spec", "invert_pi1_spec", "udiv_qr_3by2_spec", "modlimb_invert_spec", "divrem_euclidean_qr_1_val",
     "divrem_1_val", "divrem_euclidean_r_1_val", "rsh_divrem_hensel_qr_1_val", "mod_1_val", "preinv_mod_1_val", "divexact_1_val", "divexact_by3c_val", "modexact_1c_odd_val",
 ]]
 
